@@ -30,6 +30,15 @@ func c12Bytes(f, n, salt int) []byte {
 			} else {
 				b[i-1] = byte((i*7 + salt) % 256)
 			}
+		case 5:
+			switch {
+			case i <= 16:
+				b[i-1] = byte(i)
+			case i <= 32:
+				b[i-1] = 0
+			default:
+				b[i-1] = byte(i % 251)
+			}
 		}
 	}
 	return b
